@@ -83,7 +83,7 @@ class ExprMixin:
             return v.term != 0
         if isinstance(v, VStr):
             return z3.Length(v.term) > 0
-        if isinstance(v, VTuple):
+        if isinstance(v, (VTuple, VList)):
             return z3.BoolVal(len(v.items) > 0)
         if isinstance(v, VSeq):
             return v.length > 0
